@@ -16,6 +16,11 @@ for lf in sys.argv[1:]:
         else:
             obs = [re.sub(r'\[(unknown|timeout|sat|error)\]$', '', o.strip()) for o in rest.replace(' detected by ', '').split(', ') if o.strip() and o.strip() != '…']
             res[path] = ('detected', obs)
+import glob
+for mp in glob.glob('/verif/seeded/C*/m*/meta.json'):
+    meta = json.load(open(mp))
+    if meta.get('expect') == 'miss':
+        res['seeded/' + '/'.join(mp.split('/')[-3:-1])] = ('missed', [])
 head = subprocess.run(['git', '-C', '/repo', 'log', '-1', '--format=%h'], capture_output=True, text=True).stdout.strip()
 vhead = subprocess.run(['git', '-C', '/verif', 'log', '-1', '--format=%h'], capture_output=True, text=True).stdout.strip()
 rows = []
